@@ -11,6 +11,7 @@ correspondence ties the binary64 instance to the Go code.
 -/
 import XlModel.Lemmas.NumFmt
 import XlModel.Lemmas.NumFmtSerial
+import XlModel.Lemmas.NumFmtLit
 
 namespace XlModel.Props.C10
 open XlModel XlModel.NumFmt XlModel.Date XlModel.Date.Impl
@@ -467,5 +468,95 @@ theorem elapsed_consistent (s : Bool) (D k : Int) (hD0 : 0 ≤ D) (hk0 : 0 ≤ k
   have hpos : 0 ≤ D * 86400 + k := by omega
   rw [he, hm, hs, hh, Int.tdiv_eq_ediv_of_nonneg hpos, Int.tdiv_eq_ediv_of_nonneg hpos]
   refine ⟨rfl, ?_, ?_, ?_⟩ <;> omega
+
+/-! ## accuracy of the RENDERED text: digit preservation through printNumberLiteral -/
+
+/-- handleDigitsLiteral's slices tile the pre-formatted text: for every token list with at least one
+placeholder token (`0`, `#`, `?` runs of any lengths, any literals in between) and every text, the
+concatenated emissions are the text itself — nothing dropped, duplicated or reordered -/
+theorem digits_preserved (items : List Tok) (text : Str) (h : items.any isPlaceholder = true) :
+    emitted items text = text :=
+  emitted_eq_text items text h
+
+/-- … hence the digits and the decimal point of the final string are those of the pre-formatted
+text (minus sign, digit-free literals, colours, alignment in between) -/
+theorem rendered_digits (items : List Tok) (up : Bool) (text : Str)
+    (hph : items.any isPlaceholder = true) (hpl : PlainLits items) :
+    digitsOf (printNumberLiteral items up text) = digitsOf text :=
+  printNumberLiteral_digits items up text hph hpl
+
+/-- the thousands loop changes no digit -/
+theorem comma_digits (s : Str) (f : Bool) : digitsOf (commaLoop f s) = digitsOf s :=
+  commaLoop_digits s f
+
+theorem percents_no_digits (n : Nat) : digitsOf (percents n) = [] := by
+  induction n with
+  | zero => rfl
+  | succ k ih =>
+    unfold percents at ih ⊢
+    rw [List.replicate_succ]
+    show digitsOf (['%'] ++ List.replicate k '%') = []
+    rw [digitsOf_append, ih]; decide
+
+/-- round_error_bound for the rendered text, and the exact class of (value, code) pairs for which it
+holds on the current code: the selected section has a placeholder, digit-free literals, no
+fraction/switch token, no exponent token, no thousands separator, and the value does NOT take the
+big-number path (`isNum ∧ precision > 15 ∧ intLen+fracLen > 15`, the class of the two open
+`accuracy:over15digits:*` findings).  Then numberHandler returns a string whose digits and point
+are exactly those of `Sprintf("%0w.{d}f")` of the number layer — percent scaling included in
+`fixed pct d` — so with the exact layer they are the zero-padded digits of the integer `k` of
+`round_error_bound_exact`. -/
+theorem round_error_bound_rendered (items : List Tok) (value : Str) (up : Bool) (n : NumIn)
+    (hph : items.any isPlaceholder = true) (hpl : PlainLits items)
+    (hun : hasUnmodelled items = false)
+    (hsci : (getConf items).useSci = false) (hcomma : (getConf items).useCommaSep = false)
+    (hbig : ¬ (n.isNum = true ∧ n.precision > bigPrecision ∧
+        (partLen (getConf items) n.absShort).1 + (partLen (getConf items) n.absShort).2 > bigLen)) :
+    ∃ s, numberHandler items value up n = .ok s ∧
+      digitsOf s = digitsOf (padLeft
+        ((partLen (getConf items) n.absShort).1 + (partLen (getConf items) n.absShort).2 +
+          (if (partLen (getConf items) n.absShort).2 > 0 then 1 else 0))
+        (n.fixed (getConf items).percent (partLen (getConf items) n.absShort).2)) := by
+  unfold numberHandler
+  simp only [hun, Bool.false_eq_true, if_false]
+  have hb : ¬ (n.isNum = true ∧ n.precision > bigPrecision ∧
+      (partLen (getConf items) n.absShort).1 + (partLen (getConf items) n.absShort).2 > bigLen ∧ (!(getConf items).useSci) = true) := by
+    intro h; exact hbig ⟨h.1, h.2.1, h.2.2.1⟩
+  simp only [hsci, hcomma, Bool.false_eq_true, if_false]
+  rw [hsci] at hb
+  rw [if_neg hb]
+  refine ⟨_, rfl, ?_⟩
+  rw [rendered_digits _ _ _ hph hpl, digitsOf_append, percents_no_digits, List.append_nil]
+
+/-- the exact layer plugged in: the rendered digits are those of `k` printed with `d` decimals,
+`k` within half a unit of `|x|·100^pct·10^d` (`round_error_bound_exact`) -/
+theorem exact_layer_fixed (x : Exact.Dec) (pct d : Nat) :
+    (Exact.numIn x).fixed pct d = Exact.renderFixed (Exact.scaledRound x pct d) d := rfl
+
+/-! ## for which classes the section clause holds -/
+
+/-- section clause, exact boundary on the current code: for positional sections the model's choice
+equals Excel's rule IF AND ONLY IF the value is not (zero with three or more sections) -/
+theorem section_select_iff (secs : List Sec) (h : WellTyped secs) (c : Spec.Cls) :
+    modelSelect secs c = Spec.sectionFor secs.length c ↔ ¬ (c = .zero ∧ 3 ≤ secs.length) := by
+  constructor
+  · intro he hc
+    obtain ⟨hz, hl⟩ := hc
+    subst hz
+    obtain ⟨ht, hl4⟩ := h
+    match secs, ht, hl, hl4 with
+    | [a, b, d], ht, _, _ =>
+      simp [positional] at ht
+      obtain ⟨ha, hb, hd⟩ := ht
+      simp_all [modelSelect, clsFlags, valueSectionType, selectSection, enum, Spec.sectionFor, List.range_succ]
+    | [a, b, d, e], ht, _, _ =>
+      simp [positional] at ht
+      obtain ⟨ha, hb, hd, he'⟩ := ht
+      simp_all [modelSelect, clsFlags, valueSectionType, selectSection, enum, Spec.sectionFor, List.range_succ]
+  · intro hn
+    apply section_select_partial secs h c
+    by_cases hc : c = .zero
+    · right; have : ¬ 3 ≤ secs.length := fun h3 => hn ⟨hc, h3⟩; omega
+    · left; exact hc
 
 end XlModel.Props.C10
